@@ -1070,9 +1070,6 @@ func (l *LineWrapper) wrapNextLine(config lineConfig) (done bool) {
 			return true
 		case truncated:
 			// The candidateRun does not fit.
-			if !l.scratch.hasBest() {
-				l.scratch.markCandidateBest()
-			}
 			if l.config.BreakPolicy == Never {
 				return true
 			}
@@ -1121,9 +1118,6 @@ func (l *LineWrapper) wrapNextLine(config lineConfig) (done bool) {
 				l.scratch.markCandidateBest(candidateRun)
 				return true
 			case truncated:
-				if !l.scratch.hasBest() {
-					l.scratch.markCandidateBest()
-				}
 				return true
 			case newLineBeforeBreak:
 				l.restore()
